@@ -28,7 +28,8 @@ def oracle : List Sexp → Sexp
     match (Model.dec m : Option (Model (Ext Rat))), (LinModel.dec lm : Option (LinModel (Ext Rat))) with
     | some m, some lm =>
       let r := WF.report m lm
-      let failing := r.failing ++ (if WF.occurringPresent m lm then [] else ["occurring-variable-missing"])
+      let failing := r.failing ++ (if WF.occurringPresent m lm then [] else ["occurring-variable-missing"]) ++
+        (if WF.domainOrdered m lm then [] else ["domain-not-ordered"])
       match failing with
       | [] => app "ok" []
       | f :: _ => app "violation" [.atom f, .list (failing.map .atom)]
